@@ -236,6 +236,50 @@ FACT_MODULES = {
     "Anonymongo.Facts_inits": "Inits", "Anonymongo.Facts_footprint": "Footprint", "Anonymongo.Facts_footprint_atlas": "Footprint",
     "Anonymongo.Facts_atlas_requests": "AtlasReq", "Anonymongo.Facts_vocabulary": "Vocabulary", "Anonymongo.Facts_regex": "Regex", "Anonymongo.Facts_cleanup": "Cleanup",
 }
+# ---- functions TRANSLATED from the source on every run (tools/gotr -> Generated/Src.lean) and proved equal to the model
+# (Props/Src/*): the leaf / lookup theorems of these properties are thereby statements about the current text of
+# redactScalarValue, redactString, reMatchesAnyKeyInPath, IsEmail, getOp, traverseMapPath, withinSearchUserDocument,
+# RemoveElementAfter, RemoveElementsBeforeIncluding, isFieldNameValue, isRedactableFieldPatternInArray, isInSearchStage, augmentOp
+SRC_MODULES = {
+    "Anonymongo.Src.redactScalarValue_eq": "Scalar", "Anonymongo.Src.redactScalarValue_eq_gen": "Scalar", "Anonymongo.Src.Gen_emailPH": "Scalar",
+    "Anonymongo.Src.getOp_eq": "Path", "Anonymongo.Src.traverseMapPath_eq": "Path", "Anonymongo.Src.traverseMapPath_step": "Path",
+    "Anonymongo.Src.traverseFuel_enough": "Path",
+    "Anonymongo.Src.redactString_eq": "Basic", "Anonymongo.Src.reMatchesAnyKeyInPath_eq": "Basic", "Anonymongo.Src.IsEmail_eq": "Basic",
+    "Anonymongo.Src.withinSearchUserDocument_eq": "Basic", "Anonymongo.Src.RemoveElementAfter_eq": "Basic",
+    "Anonymongo.Src.RemoveElementsBeforeIncluding_eq": "Basic",
+    "Anonymongo.Src.isFieldNameValue_eq": "Helpers", "Anonymongo.Src.isRedactableFieldPatternInArray_eq": "Helpers",
+    "Anonymongo.Src.isInSearchStage_eq": "Helpers", "Anonymongo.Src.augmentOp_eq": "Helpers",
+}
+_LEAF = ["Anonymongo.Src.redactScalarValue_eq", "Anonymongo.Src.redactScalarValue_eq_gen", "Anonymongo.Src.Gen_emailPH", "Anonymongo.Src.getOp_eq",
+         "Anonymongo.Src.traverseMapPath_eq", "Anonymongo.Src.redactString_eq", "Anonymongo.Src.reMatchesAnyKeyInPath_eq", "Anonymongo.Src.IsEmail_eq"]
+_PATH = ["Anonymongo.Src.getOp_eq", "Anonymongo.Src.traverseMapPath_eq", "Anonymongo.Src.traverseMapPath_step", "Anonymongo.Src.traverseFuel_enough",
+         "Anonymongo.Src.withinSearchUserDocument_eq", "Anonymongo.Src.RemoveElementAfter_eq", "Anonymongo.Src.RemoveElementsBeforeIncluding_eq"]
+_HELP = ["Anonymongo.Src.isFieldNameValue_eq", "Anonymongo.Src.isRedactableFieldPatternInArray_eq", "Anonymongo.Src.isInSearchStage_eq", "Anonymongo.Src.augmentOp_eq"]
+SRC_THEOREMS = {
+    "C01": _LEAF + ["Anonymongo.Src.isInSearchStage_eq"],
+    "C02": _LEAF,
+    "C03": ["Anonymongo.Src.redactScalarValue_eq"],
+    "C05": _LEAF,
+    "C07": _LEAF + _PATH + _HELP,
+    "C10": ["Anonymongo.Src.redactString_eq", "Anonymongo.Src.redactScalarValue_eq"],
+    "C12": ["Anonymongo.Src.getOp_eq", "Anonymongo.Src.traverseMapPath_eq"],
+    "C14": _LEAF + ["Anonymongo.Src.isRedactableFieldPatternInArray_eq", "Anonymongo.Src.augmentOp_eq"],
+    "C15": ["Anonymongo.Src.isFieldNameValue_eq"],
+    "C19": ["Anonymongo.Src.redactScalarValue_eq"],
+}
+SRC_NOTE = ("; SOURCE-LEVEL (tools/gotr, Generated/Src.lean, Props/Src/*): the leaf and lookup functions are TRANSLATED from the Go source on every run "
+            "into Lean (do-notation over Option, none = panic) and proved to return - never panic, always terminate - exactly what the model's "
+            "redactScalar / redactString / reMatchesAny / isEmail / getOp / traverse / augmentOp / selArr compute, for every key path (non-empty), value, "
+            "table and flag setting; the theorems above about those model functions are therefore theorems about the current source text")
+for _p, _ts in SRC_THEOREMS.items():
+    _s = PROPS[_p]
+    _s["theorems"] = _s["theorems"] + [t for t in dict.fromkeys(_ts) if t not in _s["theorems"]]
+    _s["statement"] = _s.get("statement", "") + SRC_NOTE
+    for _t in _ts:
+        _m = "Anonymongo.Props.Src." + SRC_MODULES[_t]
+        if _m not in _s.setdefault("extra_modules", []):
+            _s["extra_modules"].append(_m)
+
 # the two fixed regular expressions are the ones the model's recognisers were written for (e-mail class: C01, C05; plan summary: C15, C13)
 for _p in ["C01", "C05", "C13", "C15"]:
     PROPS[_p]["theorems"] = PROPS[_p]["theorems"] + ["Anonymongo.Facts_regex"]
